@@ -95,11 +95,11 @@ def drives(kind, ph, n):
     raise ValueError(kind)
 
 
-def mk(shape, kind, basis, ph, cfg, perm=None, coords=None):
+def mk(shape, kind, basis, ph, cfg, perm=None, coords=None, dev="mock"):
     coords = coords or SHAPES[shape]
     n = len(coords)
     d = drives(kind, ph, n)
-    spec = {"coords": coords, "device": "mock", "basis": basis, "pulses": d["pulses"] + d.get("extra", [])}
+    spec = {"coords": coords, "device": dev, "basis": basis, "pulses": d["pulses"] + d.get("extra", [])}
     for k in ("dmm", "slm", "local_channel"):
         if k in d:
             spec[k] = d[k]
@@ -130,6 +130,7 @@ def bounds(tier, seed):
         "basis": ["rydberg", "xy (global, twophase, slm)"],
         "phase": [0.0, 0.7],
         "configs": _cfgs(tier),
+        "modulation": "virtual device with 8 MHz channels, with_modulation off / on, with and without reordering (pair, bent3)",
         "ordering": "off; on with every p in S_N for N <= 4 (drive kinds dmm, local, slm, global; base config); on with the real optimiser",
     }
 
@@ -152,6 +153,15 @@ def cases(tier, seed):
                                 continue
                             c["init"] = "product:" + "0110"[:n]
                         yield mk(shape, kind, basis, ph, c)
+    # channels with a finite modulation bandwidth, modulation on / off (the sequence gets longer by the fall time)
+    for shape in ("pair", "bent3"):
+        for kind in ("global", "twophase", "dmm", "local"):
+            for mod in (False, True):
+                for perm in (None, [1, 0] if shape == "pair" else [2, 0, 1]):
+                    c = {"dt": 10, "eval": [0.37, 1.0], "precision": 1e-8, "with_modulation": mod, "seed": seed}
+                    if perm:
+                        c["ordering"] = True
+                    yield mk(shape, kind, "rydberg", 0.7, c, perm=perm, dev="mod")
     # every optimiser answer
     base = {"dt": 10, "eval": [0.5, 1.0], "precision": 1e-8, "ordering": True, "seed": seed}
     for shape in ["bent3", "zig4"] if tier == "quick" else ["pair", "bent3", "tri3", "zig4", "rect4"]:
